@@ -40,6 +40,7 @@ type Out struct {
 	Data         []byte // payload (for RecHS: one or more complete or deliberately broken handshake messages)
 	NoTranscript bool   // do not add to the local transcript (the peer's view then differs from ours)
 	RawRecord    bool   // Data is a complete record including header: written as is, unprotected
+	NoFragment   bool   // write Data as ONE record even when it exceeds 2^14 bytes (a record-size violation)
 }
 
 type Plan struct {
@@ -186,7 +187,7 @@ func (p *Peer) send(step string, o Out) error {
 		data := x.Data
 		for first := true; first || len(data) > 0; first = false {
 			n := len(data)
-			if n > 16384 {
+			if n > 16384 && !x.NoFragment {
 				n = 16384
 			}
 			if err := p.writeRecord(x.RecType, data[:n]); err != nil {
